@@ -27,12 +27,14 @@ C07_FUNCS = [
     ("tensordict/base.py", "TensorDictBase", "_convert_inplace"),
     ("tensordict/base.py", "TensorDictBase", "set"),
     ("tensordict/base.py", "TensorDictBase", "set_"),
+    ("tensordict/base.py", "TensorDictBase", "update_"),
     ("tensordict/base.py", "TensorDictBase", "to_tensordict"),
     ("tensordict/base.py", "TensorDictBase", "clone"),
     ("tensordict/base.py", "TensorDictBase", "copy"),
     ("tensordict/_td.py", "TensorDict", "_set_str"),
     ("tensordict/_td.py", "TensorDict", "_clone"),
     ("tensordict/_td.py", "TensorDict", "contiguous"),
+    ("tensordict/_td.py", "_SubTensorDict", "_set_at_str"),
     ("tensordict/_td.py", "_SubTensorDict", "_index_tensordict"),
     ("tensordict/_td.py", "_SubTensorDict", "_select"),
     ("tensordict/_td.py", "_SubTensorDict", "_exclude"),
